@@ -61,6 +61,31 @@ int main(int argc, char** argv) {
         }
         o += "}"; puts(o.c_str()); n++;
     }
-    leave(tok); fprintf(stderr, "%ld pairs over %zu tuples\n", n, D.size());
+    // (f) side decision of a border split, through the API on a bare tree: 8 small fillers, the pivot tuple f at rank 8, 6 large fillers,
+    //     then the new tuple t.  Tuples with first slice byte 01 only (fillers start with 00 / 02).
+    auto keyof = [](const Tup& t, char tail) { std::string k((const char*)t.s, t.l > 8 ? 8 : t.l); if (t.l > 8) k.push_back(tail); return k; };
+    long nsplit = 0;
+    for (auto& t : D) for (auto& f : D) {
+        if (t.s[0] != 1 || f.s[0] != 1) continue;
+        if (memcmp(t.s, f.s, 8) == 0 && t.l == f.l) continue;
+        tree_instance ti; int val[2] = {7, 7}; std::vector<std::string> all;
+        for (int i = 0; i < 8; i++) all.push_back(std::string("\0", 1) + std::string(1, (char)(i + 1)));
+        all.push_back(keyof(f, 'x'));
+        for (int i = 0; i < 6; i++) all.push_back(std::string("\2", 1) + std::string(1, (char)(i + 1)));
+        for (auto& k : all) put<char>(tok, &ti, k, (char*)val, false, 8);
+        std::string kt = keyof(t, 'y'); put<char>(tok, &ti, kt, (char*)val, false, 8); all.push_back(kt);
+        base_node* root = ti.load_root_ptr(); bool split = !root->get_version_border(); bool left = false; std::size_t total = 0; bool getok = true;
+        if (split) {
+            auto* in = dynamic_cast<interior_node*>(root); auto* lb = dynamic_cast<border_node*>(in->get_child_at(0));
+            permutation p{lb->get_permutation().get_body()};
+            for (std::size_t r = 0; r < p.get_cnk(); r++) { auto ix = p.get_index_of_rank(r); if (lb->get_key_slice_at(ix) == slice(t) && lb->get_key_length_at(ix) == t.l) left = true; }
+        }
+        for (auto& k : all) { std::pair<char*, std::size_t> o{nullptr, 0}; if (get<char>(&ti, k, o) != status::OK) getok = false; put<char>(tok, &ti, k, (char*)val, false, 8); }
+        { std::vector<std::tuple<std::string, char*, std::size_t>> tl; scan<char>(&ti, "", scan_endpoint::INF, "", scan_endpoint::INF, tl, nullptr, 0, false); total = tl.size(); }
+        printf("{\"op\":\"split\",\"t\":%s,\"e\":%s,\"split\":%s,\"left\":%s,\"getok\":%s,\"total\":%zu}\n", tj(t).c_str(), tj(f).c_str(), vh::jb(split), vh::jb(left), vh::jb(getok), total);
+        if (auto* rt = ti.load_root_ptr()) { rt->destroy(); delete rt; ti.store_root_ptr(nullptr); }
+        nsplit++;
+    }
+    leave(tok); fprintf(stderr, "%ld pairs over %zu tuples, %ld split cases\n", n, D.size(), nsplit);
     return 0;
 }
